@@ -255,6 +255,35 @@ def run(prog, rep):
                         and "(*arg:self as None).value" in c and "(*arg:self as Some).value" in c and g.value is True and err_on_edge(body, g.dst, "ExpectedOptionalValue"):
                     ok = True
         rep.check(ok, "C06.Q", "%s :: optional operand" % f.id, f.loc(), "some/none: quantifier != ? → ExpectedOptionalValue", "some/none no longer require an optional operand")
+    # ---- B: block scopes
+    rep.rule("C06.B", "every nested block (scan arm, if arm, for body, comprehension) is checked under its own VariableMap::nested(ctx.locals), created per arm; "
+                      "the sources/conditions of a construct are checked in the enclosing context")
+    from ..engines.e3_driver import forward_loops
+    for ty, arms_field in (("tsg::ast::If", "arms"), ("tsg::ast::Scan", "arms")):
+        fl = [f for f in chk if f.self_path == ty and f.name == "check"]
+        if len(fl) != 1:
+            rep.violation("C06.B", "anchor-lost:%s::check" % ty, "", "not found")
+            continue
+        f = fl[0]
+        body, tr = f.body, Tracer(f.body)
+        arm_loops = forward_loops(body, tr, r"arg:self\.%s$" % arms_field)
+        nested = [(b, t) for b, t in body.calls() if is_callee(t, r"VariableMap::<'a, V>::nested$")]
+        ok = len(arm_loops) == 1 and len(nested) == 1
+        if ok:
+            h, bl, nb = arm_loops[0]
+            nbk = nested[0][0]
+            ok = nbk in bl and "arg:ctx.locals" in canon(tr.operand(nested[0][1]["args"][0]))
+            # every statement of an arm is checked with the nested context, every condition with the outer one
+            for b, t in body.calls():
+                if is_callee(t, r"checker::<impl tsg::ast::Statement>::check$"):
+                    ok = ok and "VariableMap::nested(" in canon(tr.operand(t["args"][1]))
+                if is_callee(t, r"checker::<impl tsg::ast::Condition>::check$"):
+                    ok = ok and canon(strip(tr.operand(t["args"][1]))) == "arg:ctx"
+        rep.check(ok, "C06.B", "%s :: per-arm scope" % f.id, f.loc(), "a fresh nested scope per arm; conditions in the enclosing scope",
+                  "the arms of %s do not each get their own nested scope (or conditions are checked inside an arm's scope)" % ty.rsplit("::", 1)[-1])
+    # ---- X: index spaces (the unused-capture computation compares capture indices)
+    from . import C03
+    C03.index_space(prog, rep)
     # ---- U: unused captures
     rep.rule("C06.U", "captures of the stanza query that the block never uses and that do not start with `_` are reported as UnusedCaptures")
     fl = [f for f in chk if f.self_path == "tsg::ast::Stanza" and f.name == "check"]
